@@ -785,4 +785,409 @@ example : ([some userFn1, none, some userFn2].map (fun o => o.elim none liftFn))
 theorem pinned_eq_fixed_without_nil (cur : AccFnP) (g : Option Err → Option Bool) :
     withAcceptablePinned cur (some g) = withAcceptableFixed cur (some g) := rfl
 
+/-! ### round 5c: the whole end-error domain — the body may end the raw Tx itself -/
+
+theorem count_beginOk_le (l : List Ev) : count isBeginOk l ≤ count isBegin l := by
+  induction l with
+  | nil => simp [count]
+  | cons e l ih =>
+    unfold count at *
+    cases e <;> (try (rename_i ok; cases ok)) <;> simp [List.filter_cons] <;> omega
+
+theorem holdsX_of_holds (r : Result) (h : holds r = true) : holdsX r = true := by
+  unfold holds at h
+  simp only [Bool.and_eq_true] at h
+  obtain ⟨⟨⟨⟨⟨⟨⟨⟨⟨⟨h1, h2⟩, h3⟩, _⟩, _⟩, h6⟩, h7⟩, _⟩, h9⟩, h10⟩, h11⟩ := h
+  have h7' : nilOnlyIfCommitOk r = true := by
+    unfold nilIffCommitOk at h7; unfold nilOnlyIfCommitOk
+    cases hr : r.ret.isNone <;> simp_all
+  simp [holdsX, h1, h2, h3, h6, h7', h9, h10, h11]
+
+theorem holdsX_badPrefix (r : Result) (n : Nat) (hne : r.log ≠ []) (hb : r.log.any isBegin = true) :
+    holdsX { r with log := badPrefix n r.log } = holdsX r := by
+  have e1 : beginsOnce { r with log := badPrefix n r.log } = beginsOnce r := by
+    simp only [beginsOnce, count, filter_badPrefix isBegin rfl, dropWhile_badPrefix] <;> rfl
+  have e2 : endsExactlyOnce { r with log := badPrefix n r.log } = endsExactlyOnce r := by
+    simp only [endsExactlyOnce, begun, count, filter_badPrefix isEnd rfl, filter_badPrefix isStmt rfl,
+      any_badPrefix isBeginOk rfl, getLast?_badPrefix n r.log hne] <;> rfl
+  have e3 : bodyRunsIffBegun { r with log := badPrefix n r.log } = bodyRunsIffBegun r := by
+    simp only [bodyRunsIffBegun, begun, any_badPrefix isBeginOk rfl] <;> rfl
+  have e6 : panicReported { r with log := badPrefix n r.log } = panicReported r := rfl
+  have e7 : nilOnlyIfCommitOk { r with log := badPrefix n r.log } = nilOnlyIfCommitOk r := by
+    simp only [nilOnlyIfCommitOk, contains_badPrefix (.commit true) (by simp)] <;> rfl
+  have e9 : bodyErrorReported { r with log := badPrefix n r.log } = bodyErrorReported r := rfl
+  have e11 : beginFailureReported { r with log := badPrefix n r.log } = beginFailureReported r := by
+    simp [beginFailureReported, retIs, mem_badPrefix (.begin false) (by simp : Ev.begin false ≠ .beginBad),
+      any_badPrefix isBegin rfl, hb]
+  have e10 : orderlyReturn { r with log := badPrefix n r.log } = orderlyReturn r := by
+    simp only [orderlyReturn, getLast?_badPrefix n r.log hne] <;> rfl
+  simp only [holdsX, e1, e2, e3, e6, e7, e9, e10, e11]
+
+/-- the run in which the body ended the raw Tx, without the retried Begin attempts in front -/
+def rawRun (b : Body) (r : RawEnd) : Result :=
+  { log := .begin true :: ((runBody b).1 ++ [rawEv r]), runs := 1, body := (runBody b).2,
+    ret := some (retAfterRawEnd (runBody b).2) }
+
+theorem holdsX_rawRun (b : Body) (r : RawEnd) : holdsX (rawRun b r) = true := by
+  have hall := runBody_all b
+  have h1 := filter_nil_of_all stmt_not_begin _ hall
+  have h2 := all_notBeginish _ hall
+  have h3 := filter_nil_of_all stmt_not_end _ hall
+  have h4 := any_false_of_all stmt_not_beginOk _ hall
+  have h5 : Ev.begin false ∉ (runBody b).1 := not_mem_of_all hall _ rfl
+  have hne := runBody_ne_notRun b
+  obtain ⟨cm, ok⟩ := r
+  unfold holdsX rawRun beginsOnce endsExactlyOnce bodyRunsIffBegun panicReported nilOnlyIfCommitOk
+    bodyErrorReported orderlyReturn beginFailureReported count begun rawEv retAfterRawEnd
+  generalize (runBody b).1 = evs at *
+  generalize (runBody b).2 = out at *
+  cases cm <;> cases out <;>
+    simp_all [List.filter_cons, List.filter_append, List.all_append, getLast?_cons_snoc, Err.mentions, Err.of,
+      reports, retIs] <;>
+    (intro s hs; simp [hs])
+
+theorem transactOnConnX_reached (f : Faults) (b : BodyX) (r : RawEnd) (hr : b.raw = some r)
+    (h : b.reaches f = true) :
+    transactOnConnX f b = { rawRun b.base r with log := badPrefix f.badConn (rawRun b.base r).log } := by
+  unfold transactOnConnX; rw [hr]; simp [h, rawRun]
+
+theorem transactOnConnX_not_reached (f : Faults) (b : BodyX) (h : b.reaches f = false) :
+    transactOnConnX f b = transactOnConn f b.base := by
+  unfold transactOnConnX
+  cases hr : b.raw with
+  | none => rfl
+  | some r => simp [h]
+
+theorem holdsX_onConnX (f : Faults) (b : BodyX) : holdsX (transactOnConnX f b) = true := by
+  cases h : b.reaches f
+  · rw [transactOnConnX_not_reached f b h]; exact holdsX_of_holds _ (holds_onConn f b.base)
+  · have hs : b.raw.isSome = true := by
+      unfold BodyX.reaches at h; simp only [Bool.and_eq_true] at h; exact h.1.1
+    obtain ⟨r, hr⟩ := Option.isSome_iff_exists.mp hs
+    rw [transactOnConnX_reached f b r hr h,
+      holdsX_badPrefix _ _ (by simp [rawRun]) (by simp [rawRun])]
+    exact holdsX_rawRun b.base r
+
+theorem holdsX_mark (r : Result) (m : Option Bool) : holdsX { r with mark := m } = holdsX r := rfl
+
+/-- **All go-zero-side clauses over the WHOLE domain** — every environment, fault plan (Commit / Rollback errors
+of every class incl. sql.ErrTxDone bare or wrapped, panics), every body incl. bodies that commit or roll back the
+raw `*sql.Tx` themselves and then return nil / an error / panic: one Begin, exactly one end of the transaction at
+the driver (as the last call), the body runs iff begun, a panic is reported, nil ONLY when a Commit succeeded, the
+body's error is told, orderly return, Begin failures reported. -/
+theorem monitor_sound_full (env : Env) (f : Faults) (b : BodyX) :
+    holdsX (transactCtxX env f b) = true ∧ holdsX (transactOnConnX f b) = true := by
+  refine ⟨?_, holdsX_onConnX f b⟩
+  unfold transactCtxX brkDo transactFnX
+  cases h1 : env.ctxDone <;> cases h2 : env.brkAllow <;> cases h3 : env.connOk <;> cases h4 : env.ctxDead <;>
+    simp only [Bool.not_true, Bool.not_false, Bool.false_eq_true, if_false, if_true] <;>
+    first
+      | decide
+      | exact (holdsX_mark _ _).trans (holdsX_onConnX f b)
+      | exact (holdsX_mark { log := [], runs := 0, body := .notRun, ret := some (Err.of .conn) } _).trans (by decide)
+
+/-- without a raw end the extended model IS the model of the other theorems -/
+theorem x_agrees_without_raw_end (env : Env) (f : Faults) (b : Body) :
+    transactCtxX env f { base := b } = transactCtx env f b := by
+  rw [transactCtx_is_wrapped_transact]
+  unfold transactCtxX transactFnX transactFn transactOnConnX
+  rfl
+
+/-- **The returned error is nil only when the commit succeeded — over the whole domain.**
+(1) literal direction: nil ⇒ a successful Commit reached the driver; (2) exactly: nil ⇔ the body did not end the
+Tx itself ∧ a transaction was opened ∧ the body returned nil ∧ the driver accepted go-zero's Commit; (3) once the
+body has ended the raw Tx — by Commit or Rollback, accepted or refused by the driver, whatever it returns
+afterwards — `Transact` NEVER returns nil: it returns sql.ErrTxDone (the refused `tx.Commit()`), or wraps it
+(`rollback failed: %w`), reachable by errors.Is; the breaker books that as a success (ErrTxDone is acceptable);
+(4) a Commit the DRIVER refuses with sql.ErrTxDone (bare or wrapped) is returned with its identity.
+The seeded change C14-8 (ErrTxDone dropped at the commit site) negates (3) and (4). -/
+theorem nil_only_if_commit_ok_full (env : Env) (f : Faults) (b : BodyX) :
+    ((transactCtxX env f b).ret = none → Ev.commit true ∈ (transactCtxX env f b).log) ∧
+    ((transactCtxX env f b).ret = none ↔
+      (b.reaches f = false ∧ opened env f = true ∧ (runBody b.base).2 = .nil ∧ f.commitOk = true)) ∧
+    (env.admitted = true → b.reaches f = true →
+      (∃ e, (transactCtxX env f b).ret = some e ∧ hasCls (some e) .txDone = true) ∧
+      (transactCtxX env f b).mark = some true ∧ (transactCtxX env f b).escaped = false ∧
+      ((runBody b.base).2 = .nil → (transactCtxX env f b).ret = some (Err.of (.commit .txDone)))) ∧
+    (opened env f = true → b.reaches f = false → (runBody b.base).2 = .nil → f.commit = false →
+      f.commitPanics = false → (transactCtxX env f b).ret = some (Err.of (.commit f.commitCls))) := by
+  have hsound := (monitor_sound_full env f b).1
+  have hlit : (transactCtxX env f b).ret = none → Ev.commit true ∈ (transactCtxX env f b).log := by
+    intro hn
+    unfold holdsX at hsound
+    simp only [Bool.and_eq_true] at hsound
+    have := hsound.1.1.1.2
+    unfold nilOnlyIfCommitOk at this
+    simpa [hn] using this
+  have hnr : b.reaches f = false → transactCtxX env f b = transactCtx env f b.base := by
+    intro h
+    rw [transactCtx_is_wrapped_transact]
+    unfold transactCtxX transactFnX transactFn
+    rw [transactOnConnX_not_reached f b h]
+  have hreach : env.admitted = true → b.reaches f = true →
+      transactCtxX env f b =
+        { transactOnConnX f b with mark := some (acceptable env.userAccept (transactOnConnX f b).ret) } ∧
+      ∃ r, b.raw = some r ∧
+        transactOnConnX f b = { rawRun b.base r with log := badPrefix f.badConn (rawRun b.base r).log } := by
+    intro ha h
+    have hs : b.raw.isSome = true := by
+      unfold BodyX.reaches at h; simp only [Bool.and_eq_true] at h; exact h.1.1
+    obtain ⟨r, hr⟩ := Option.isSome_iff_exists.mp hs
+    have hx := transactOnConnX_reached f b r hr h
+    refine ⟨?_, r, hr, hx⟩
+    unfold Env.admitted at ha
+    simp only [Bool.and_eq_true, Bool.not_eq_true'] at ha
+    unfold transactCtxX brkDo transactFnX
+    simp [ha.1.1, ha.1.2, ha.2, hx, rawRun]
+  refine ⟨hlit, ?_, ?_, ?_⟩
+  · cases h : b.reaches f
+    · rw [hnr h]
+      have := (nil_only_if_commit_ok env f b.base).2.1
+      simpa using this
+    · constructor
+      · intro hn
+        exfalso
+        cases ha : env.admitted
+        · -- not admitted: the wrapper's own error
+          unfold Env.admitted at ha
+          unfold transactCtxX brkDo transactFnX at hn
+          cases h1 : env.ctxDone <;> cases h2 : env.brkAllow <;> cases h3 : env.connOk <;> simp_all
+        · obtain ⟨h1, r, _, h2⟩ := hreach ha h
+          rw [h1, h2] at hn
+          simp [rawRun] at hn
+      · intro hc; simp at hc
+  · intro ha h
+    obtain ⟨h1, r, _, h2⟩ := hreach ha h
+    rw [h1, h2]
+    refine ⟨?_, ?_, ?_, ?_⟩
+    · cases ho : (runBody b.base).2 <;> simp [rawRun, retAfterRawEnd, ho, hasCls, srcCls, Err.of]
+    · cases ho : (runBody b.base).2 <;> simp [rawRun, retAfterRawEnd, ho, acceptable, srcAcceptable, clsAcceptable, Err.of]
+    · simp [rawRun]
+    · intro ho; simp [rawRun, retAfterRawEnd, ho]
+  · intro ho h hb hc hp
+    rw [hnr h, ret_opened env f b.base ho, hb]
+    simp [hc, hp]
+
+/-- the body rolled the raw Tx back and returned nil: nothing was committed, sql.ErrTxDone is returned (the seeded
+change C14-8 returns nil here) -/
+example : transactCtxX envOk { begin := true, commit := true, rollback := true }
+    { base := { stmts := [⟨.exec, false, true⟩], fin := .ok }, raw := some { commit := false, ok := true } }
+    = { log := [.begin true, .exec 0 true, .rollback true], runs := 1, body := .nil,
+        ret := some (Err.of (.commit .txDone)), mark := some true } := by decide
+
+/-- … and what C14-8 returned there violates the literal clause -/
+example : violatedX { log := [.begin true, .exec 0 true, .rollback true], runs := 1, body := .nil, ret := none }
+    = ["nil-only-if-commit-ok"] := by decide
+
+/-- **Exactly one end of the transaction reaches the driver over the whole domain**: the body's own raw end, or
+go-zero's — never both, never none. -/
+theorem ends_exactly_once_full (env : Env) (f : Faults) (b : BodyX) (ho : opened env f = true) :
+    count isEnd (transactCtxX env f b).log = 1 ∧
+    (∃ e, (transactCtxX env f b).log.getLast? = some e ∧ isEnd e = true) ∧
+    count isBeginOk (transactCtxX env f b).log = 1 ∧ (transactCtxX env f b).runs = 1 := by
+  have hsound := (monitor_sound_full env f b).1
+  unfold holdsX at hsound
+  simp only [Bool.and_eq_true] at hsound
+  have he := hsound.1.1.1.1.1.1.2
+  have hb := hsound.1.1.1.1.1.2
+  have hbo := hsound.1.1.1.1.1.1.1
+  have hbeg : begun (transactCtxX env f b) = true := by
+    cases h : b.reaches f
+    · have hnr : transactCtxX env f b = transactCtx env f b.base := by
+        rw [transactCtx_is_wrapped_transact]
+        unfold transactCtxX transactFnX transactFn
+        rw [transactOnConnX_not_reached f b h]
+      rw [hnr]
+      have := (begins_at_most_one_transaction env f b.base).1
+      rw [ho] at this
+      unfold begun
+      rw [List.any_eq_true]
+      simp only [count] at this
+      have hne : (List.filter isBeginOk (transactCtx env f b.base).log) ≠ [] := by
+        intro h0; rw [h0] at this; simp at this
+      obtain ⟨x, hx⟩ := List.exists_mem_of_ne_nil _ hne
+      exact ⟨x, (List.mem_filter.mp hx).1, (List.mem_filter.mp hx).2⟩
+    · have ha : env.admitted = true := by
+        unfold opened at ho; simp only [Bool.and_eq_true] at ho; exact ho.1
+      have hs : b.raw.isSome = true := by
+        unfold BodyX.reaches at h; simp only [Bool.and_eq_true] at h; exact h.1.1
+      obtain ⟨r, hr⟩ := Option.isSome_iff_exists.mp hs
+      have hx := transactOnConnX_reached f b r hr h
+      unfold Env.admitted at ha
+      simp only [Bool.and_eq_true, Bool.not_eq_true'] at ha
+      unfold transactCtxX brkDo transactFnX begun
+      simp [ha.1.1, ha.1.2, ha.2, hx, rawRun, any_badPrefix isBeginOk rfl]
+  unfold endsExactlyOnce at he
+  rw [hbeg] at he
+  simp only [if_true, Bool.and_eq_true, decide_eq_true_eq] at he
+  unfold bodyRunsIffBegun at hb
+  rw [hbeg] at hb
+  simp only [if_true, Bool.and_eq_true, decide_eq_true_eq] at hb
+  refine ⟨he.1, ?_, ?_, hb.1⟩
+  · cases hl : (transactCtxX env f b).log.getLast? with
+    | none => rw [hl] at he; simp at he
+    | some e => rw [hl] at he; exact ⟨e, rfl, by simpa using he.2⟩
+  · -- exactly one successful Begin: at least one (begun), at most one Begin at all
+    unfold beginsOnce at hbo
+    simp only [Bool.and_eq_true, decide_eq_true_eq] at hbo
+    have hle : count isBeginOk (transactCtxX env f b).log ≤ count isBegin (transactCtxX env f b).log := by
+      exact count_beginOk_le _
+    have hge : 1 ≤ count isBeginOk (transactCtxX env f b).log := by
+      unfold begun at hbeg
+      rw [List.any_eq_true] at hbeg
+      obtain ⟨x, hx1, hx2⟩ := hbeg
+      unfold count
+      exact List.length_pos_of_mem (List.mem_filter.mpr ⟨hx1, hx2⟩)
+    omega
+
+/-! ### round 5c: the session of the body (clauses statement-outside-transaction, raw-db-refused,
+nested-transaction-refused, statement-error-reaches-body, body-gets-callers-context) -/
+
+theorem outsideTx_badPrefix (w : Wiring) (st : Option Nat) (n : Nat) (l : List Ev) :
+    outsideTx st (tagLog w (badPrefix n l)) = outsideTx st (tagLog w l) := by
+  induction n with
+  | zero => rfl
+  | succ n ih => simpa [badPrefix, tagLog, outsideTx] using ih
+
+theorem outsideTx_stmts (w : Wiring) (evs rest : List Ev) (h : evs.all isStmt = true) :
+    outsideTx (some 0) (tagLog w (evs ++ rest)) =
+      (if w.stmtConn = 0 then [] else evs) ++ outsideTx (some 0) (tagLog w rest) := by
+  induction evs with
+  | nil => simp
+  | cons e evs ih =>
+    simp only [List.all_cons, Bool.and_eq_true] at h
+    have ih' := ih h.2
+    simp only [tagLog] at ih' ⊢
+    cases e <;> simp [isStmt] at h <;>
+      (simp only [List.cons_append, List.map_cons, outsideTx, ih']
+       by_cases hc : w.stmtConn = 0
+       · simp [hc]
+       · have hc' : ¬ (0 = w.stmtConn) := fun h => hc h.symm
+         simp [hc, hc'])
+
+theorem outsideTx_refused (w : Wiring) (f : Faults) : outsideTx none (tagLog w (refusedBegins f)) = [] := by
+  unfold refusedBegins
+  split <;> rw [outsideTx_badPrefix] <;> simp [tagLog, outsideTx]
+
+/-- the log of every run has the shape the connection argument needs -/
+theorem logX_shape (env : Env) (f : Faults) (b : BodyX) :
+    (∃ n evs e, (transactCtxX env f b).log = badPrefix n (.begin true :: (evs ++ [e])) ∧
+        evs.all isStmt = true ∧ isEnd e = true ∧ evs = (runBody b.base).1) ∨
+    (transactCtxX env f b).log = refusedBegins f ∨ (transactCtxX env f b).log = [] := by
+  have hall := runBody_all b.base
+  cases h : b.reaches f
+  · have hnr : transactCtxX env f b = transactCtx env f b.base := by
+      rw [transactCtx_is_wrapped_transact]
+      unfold transactCtxX transactFnX transactFn
+      rw [transactOnConnX_not_reached f b h]
+    rw [hnr, log_shape_ctx]
+    cases ho : opened env f
+    · cases env.admitted <;> simp
+    · refine Or.inl ⟨f.badConn, (runBody b.base).1, endEvent f b.base, by simp, hall, ?_, rfl⟩
+      unfold endEvent; split <;> rfl
+  · have hs : b.raw.isSome = true := by
+      unfold BodyX.reaches at h; simp only [Bool.and_eq_true] at h; exact h.1.1
+    obtain ⟨r, hr⟩ := Option.isSome_iff_exists.mp hs
+    have hx := transactOnConnX_reached f b r hr h
+    unfold transactCtxX brkDo transactFnX
+    cases h1 : env.ctxDone <;> cases h2 : env.brkAllow <;> cases h3 : env.connOk <;> simp
+    refine Or.inl ⟨f.badConn, (runBody b.base).1, rawEv r, by rw [hx]; simp [rawRun], by simpa using hall, ?_, rfl⟩
+    unfold rawEv; split <;> rfl
+
+/-- **No statement of the body runs outside the transaction** — with the session wiring of the code (the body is
+handed the transaction's session, whose statement methods use its own `t.Tx`) every statement reaches the driver on
+the connection that holds the open transaction, between Begin and the one end; for every environment, fault plan
+and body, incl. bodies that end the raw Tx themselves.  With ANY other wiring (the body handed a session on the
+pool, or a statement method that goes to the pool) exactly the body's statements run outside it. -/
+theorem statements_inside_the_transaction (w : Wiring) (env : Env) (f : Faults) (b : BodyX) :
+    (w.stmtConn = 0 → outsideTx none (tagLog w (transactCtxX env f b).log) = []) ∧
+    outsideTx none (tagLog codeWiring (transactCtxX env f b).log) = [] ∧
+    (w.stmtConn ≠ 0 → opened env f = true → b.raw = none →
+      outsideTx none (tagLog w (transactCtxX env f b).log) = (runBody b.base).1) := by
+  have key : ∀ w : Wiring, ∀ n evs e, evs.all isStmt = true → isEnd e = true →
+      outsideTx none (tagLog w (badPrefix n (.begin true :: (evs ++ [e])))) = if w.stmtConn = 0 then [] else evs := by
+    intro w n evs e hs he
+    rw [outsideTx_badPrefix]
+    have : outsideTx none (tagLog w (.begin true :: (evs ++ [e]))) = outsideTx (some 0) (tagLog w (evs ++ [e])) := by
+      simp [tagLog, outsideTx]
+    rw [this, outsideTx_stmts w evs [e] hs]
+    cases e <;> simp [isEnd, isCommit, isRollback] at he <;> simp [tagLog, outsideTx]
+  have hcode : ∀ w : Wiring, w.stmtConn = 0 → outsideTx none (tagLog w (transactCtxX env f b).log) = [] := by
+    intro w hw
+    rcases logX_shape env f b with ⟨n, evs, e, hl, hs, he, _⟩ | hl | hl
+    · rw [hl, key w n evs e hs he]; simp [hw]
+    · rw [hl]; exact outsideTx_refused w f
+    · rw [hl]; rfl
+  refine ⟨hcode w, hcode codeWiring rfl, ?_⟩
+  intro hw ho hr
+  have hb : b = { base := b.base } := by cases b; simp_all
+  rw [hb, x_agrees_without_raw_end, log_shape_ctx, ho]
+  simp only [if_true]
+  have hend : isEnd (endEvent f b.base) = true := by unfold endEvent; split <;> rfl
+  rw [key w _ _ _ (runBody_all b.base) hend]; simp [hw]
+
+/-- the body handed a session on the pool (mutation M23): its statement runs outside the transaction -/
+example : outsideTx none (tagLog { codeWiring with bodySession := .pool }
+    (transactCtx envOk { begin := true, commit := true, rollback := true } { stmts := [⟨.exec, false, false⟩], fin := .ok }).log)
+    = [.exec 0 true] := by decide
+
+/-- **What a connection made from the body's session answers** (code wiring): `Transact[Ctx]` on it makes no
+driver call, does not run its body and yields an error — exactly the model's `SK.nest` statement; `RawDB()` yields
+an error and no *sql.DB.  A wiring that does not refuse begins a SECOND transaction inside the first: begins-once is
+violated (mutation M12). -/
+theorem session_conn_refuses :
+    codeWiring.nestOutcome = ([], true, false) ∧ codeWiring.rawDBOutcome = (true, false) ∧
+    (∀ c i p, stmtEvAt c i ⟨.nest, true, p⟩ = codeWiring.nestOutcome.1 ∧
+              (Stmt.failingAt c i ⟨.nest, true, p⟩) = codeWiring.nestOutcome.2.1) ∧
+    (∀ w : Wiring, w.nestRefused = false →
+      beginsOnce { log := .begin true :: (w.nestOutcome.1 ++ [.commit true]), runs := 1, body := .nil, ret := none }
+        = false) := by
+  refine ⟨rfl, rfl, ?_, ?_⟩
+  · intro c i p; simp [stmtEvAt, Stmt.failingAt, codeWiring, Wiring.nestOutcome]
+  · intro w hw; simp [Wiring.nestOutcome, hw, beginsOnce, count, List.filter_cons]
+
+/-- **A failed statement's error is seen by the body, and the context a statement reaches database/sql with is the
+entry point's**: with the code wiring a statement made through a …Ctx method under `TransactCtx(c, …)` carries `c`
+(so database/sql refuses it once `c` is done: the model's `cancelAt`), under `Transact` and through a context-less
+method `context.Background()` (never refused). -/
+theorem statement_context_and_errors :
+    (∀ failed, codeWiring.stmtErrSeen failed = failed) ∧
+    codeWiring.ctxAtDriver .callers true = .callers ∧
+    codeWiring.ctxAtDriver .background true = .background ∧
+    (∀ entry, codeWiring.ctxAtDriver entry false = .background) ∧
+    (∀ w : Wiring, w.bodyCtx = .background → w.ctxAtDriver .callers true = .background) := by
+  refine ⟨?_, rfl, rfl, ?_, ?_⟩
+  · intro f; cases f <;> rfl
+  · intro e; cases e <;> rfl
+  · intro w h; simp [Wiring.ctxAtDriver, composeCtx, h]
+
+/-! ### round 5c: two transactions in flight on one connection pool -/
+
+open GoZero.C14.Conc in
+/-- **Two transactions in flight on one pool, every interleaving, every body length, every choice of the pool**:
+at every point each call has begun at most one transaction and ended it at most once, never before beginning it;
+the two open transactions never share a connection; no statement of a call ever runs on the other call's
+connection or outside its own transaction; and a call that is done has begun exactly one transaction and ended it
+exactly once. -/
+theorem concurrent_transactions_end_their_own (n : Bool → Nat) (sched : List (Bool × Nat)) :
+    let s := run n init sched
+    (∀ t, s.begins t ≤ 1 ∧ s.ends t ≤ s.begins t ∧ s.stray t = 0 ∧
+          (s.pc t = .done → s.begins t = 1 ∧ s.ends t = 1 ∧ s.conn t = none)) ∧
+    (s.conn true ≠ none → s.conn true ≠ s.conn false) := by
+  intro s
+  obtain ⟨h1, h2, h3⟩ := inv_run n sched init inv_init
+  refine ⟨?_, h3⟩
+  intro t
+  have ht := h1 t
+  have hs := h2 t
+  cases hpc : (run n init sched).pc t <;> rw [hpc] at ht <;> simp_all [s]
+
+/-- both calls get through when the schedule is long enough: an example interleaving -/
+def concExampleRun : Conc.St := Conc.run (fun t => if t then 2 else 1) Conc.init
+  [(true, 7), (false, 7), (false, 8), (true, 0), (false, 0), (true, 0), (false, 0), (true, 0)]
+
+open GoZero.C14.Conc in
+example : (concExampleRun.begins true, concExampleRun.ends true, concExampleRun.begins false, concExampleRun.ends false,
+    concExampleRun.pc true, concExampleRun.pc false, concExampleRun.stray true) = (1, 1, 1, 1, PC.done, PC.done, 0) := by decide
+
 end GoZero.C14.Props
